@@ -345,6 +345,7 @@ int main(int argc, char** argv)
     }
     if (mode == "replay")
     {
+        alarm(thorough ? 300 : 120);     // a replayed livelock must end too (exit 78 = reproduced hang)
         int rc = replay_file(replay);
         simrt::shutdown_pool();
         return rc;
